@@ -6,9 +6,11 @@
 package main
 
 import (
-	"os"
 	"bytes"
 	"fmt"
+	"github.com/q191201771/lal/pkg/httpflv"
+	"github.com/q191201771/lal/pkg/rtmp"
+	"os"
 	"sort"
 	"strings"
 	"time"
@@ -30,6 +32,18 @@ type replay struct {
 func forwardable(m sw.PubMsg) bool { return sw.Forwardable(m) }
 
 type sys = sw.Sys
+
+// queues: configurations whose name ends in "+queues" run with the subscribers' asynchronous write
+// queues enabled (size 8; every step still settles exactly because the in-memory connections know how
+// many queued writes are outstanding). Set before a configuration is explored or replayed.
+func queues(c cfg) {
+	n := 0
+	if strings.HasSuffix(c.Name, "+queues") {
+		n = 8
+	}
+	rtmp.VerifSetWChanSize(n)
+	httpflv.SubSessionWriteChanSize = n
+}
 
 func newSys(c cfg) *sys {
 	if on, _ := c.Conf["relay_push.enable"].(bool); on {
@@ -288,6 +302,9 @@ func configs(r *vk.Run) []cfg {
 	add("merge+gop1", lean, true, 0, "rtmp.merge_write_size", 130, "rtmp.gop_num", 1, "httpflv.gop_num", 1)
 	add("record", lean, true, 0, "record.enable_flv", true)
 	add("nopub-start", lean, false, 0, "rtmp.gop_num", 1, "httpflv.gop_num", 1)
+	// merge-write with the asynchronous write queues on: what a subscriber's queue holds must not change
+	// under it when the next batch is merged (no back-pressure here: every consumer keeps reading)
+	add("merge3frames+queues", lean, true, 0, "rtmp.merge_write_size", 130)
 	add("push", append(append([]string{}, pAll...), "J:rtmp", "PubLeave", "PubArrive"), false, 0, "relay_push.enable", true, "relay_push.addr_list", []interface{}{"$W-pushA:1935"})
 	if !r.Quick() {
 		add("gop2", full, true, 0, "rtmp.gop_num", 2, "httpflv.gop_num", 1)
@@ -372,13 +389,14 @@ func main() {
 	lalenv.Quiet()
 	world.SyncQueues()
 	r.Rule("states = distinct canonical fingerprints (group flags, cache shapes, merge buffer, per-consumer monitor phase) reached by event sequences over {P(kind), J(rtmp|flv|wsflv), L(oldest|newest), PubLeave, PubArrive} per configuration; each transition replays its prefix on a fresh server and runs the contiguity monitor for every consumer. distinct_nontrivial = states")
-	r.Assume("write queues of subscribers forced to 0 (synchronous): the statement excludes back-pressured transports (C15)",
+	r.Assume("write queues of subscribers forced to 0 (synchronous) except in the configuration '+queues' (size 8, all consumers keep reading): the statement excludes back-pressured transports (C15)",
 		"consumer bytes are decoded by lib/ref (RTMP chunk stream, FLV, WebSocket), never by lal",
 		"data independence: lal inspects only type, payload[0..4] and length; message identity travels in later payload bytes",
 		"relay-push targets: one target that accepts at once (a server-role reference peer); C17 decides when push sessions start, retry and stop; at most 3 simultaneous consumers, 2 publisher incarnations")
 	if r.ReplayIn != "" {
 		var rp replay
 		r.LoadReplay(&rp)
+		queues(rp.Cfg)
 		c := seqx.Config{New: func() seqx.Sys { return newSys(rp.Cfg) }}
 		s, vs, err := seqx.Run(c, rp.Trace)
 		if err != nil {
@@ -400,6 +418,7 @@ func main() {
 	exhaustive := true
 	for _, c := range configs(r) {
 		c := c
+		queues(c)
 		st := seqx.Explore(seqx.Config{
 			New: func() seqx.Sys { return newSys(c) }, MaxDepth: depth, Workers: 16, OutOfTime: r.OutOfTime,
 			OnViolation: func(tr []string, v seqx.Viol) {
